@@ -125,6 +125,15 @@ func suiteHist(seed uint64, n int, work, prof string) {
 	case "mergecrash":
 		suiteMergeCrash(seed, n, work)
 		return
+	case "conc":
+		suiteConc(seed, n, work, false)
+		return
+	case "concmerge":
+		suiteConc(seed, n, work, true)
+		return
+	case "backup":
+		suiteBackup(seed, n, work)
+		return
 	case "modes":
 		suiteModes(seed, n, work)
 		return
